@@ -368,6 +368,7 @@ class RoutingPolicyGenerator(PartialGenerator, ABC):
                 yield "apply", f"ipv6 next-hop ::FFFF:{next_hop_action_value.addr}"
             else:
                 raise RuntimeError(f"Next_hop target {next_hop_action_value.target} is not supported for huawei")
+            return
 
         if action.type is not ActionType.SET:
             raise NotImplementedError(f"Action type {action.type} for `{action.field}` is not supported for huawei")
